@@ -359,13 +359,92 @@ fn all_vectors(max_len: usize, extra: &[f64]) -> Vec<Vec<Fb>> {
     out
 }
 
+/// Very long objective vectors in compact form: both vectors are filled with one value each, then a few positions are
+/// overwritten (position as a fraction of the length so that shrinking the length keeps the case meaningful).
+#[derive(Clone, Debug, Serialize, Deserialize)]
+pub struct HugeCase {
+    pub len: u32,
+    pub fill_a: Fb,
+    pub fill_b: Fb,
+    /// (position: 0 = first, 65535 = last, linear in between; into b if the flag is set, else a; value)
+    pub edits: Vec<(u16, bool, Fb)>,
+}
+
+pub struct HugeCheck;
+
+impl Check for HugeCheck {
+    type Case = HugeCase;
+    fn name(&self) -> String {
+        "C09/multi-long-vectors".into()
+    }
+    fn classes(&self) -> &'static [&'static str] {
+        &["illegal component", "dominance", "trade-off", "length > 65535", "length not a multiple of 4096"]
+    }
+    fn oracle(&self, c: &HugeCase) -> Outcome {
+        let len = (c.len as usize).clamp(1, 200_000);
+        let mut a = vec![c.fill_a.f(); len];
+        let mut b = vec![c.fill_b.f(); len];
+        for (pos, into_b, v) in &c.edits {
+            let k = (*pos as usize * (len - 1)) / 65535;
+            if *into_b {
+                b[k] = v.f();
+            } else {
+                a[k] = v.f();
+            }
+        }
+        let mut cl = 0u64;
+        if len > 65535 {
+            cl |= 8;
+        }
+        if len % 4096 != 0 {
+            cl |= 16;
+        }
+        let r = (|| -> Result<(), Failure> {
+            let mut objs = Vec::new();
+            for (name, raw) in [("a", &a), ("b", &b)] {
+                let ok = raw.iter().all(|v| legal(*v));
+                let r1 = MultiObjective::try_from(raw.clone());
+                let r2 = MultiObjective::try_from(raw.as_slice());
+                match (r1, r2, ok) {
+                    (Ok(o1), Ok(_), true) => objs.push(o1),
+                    (Err(_), Err(_), false) => cl |= 1,
+                    (r1, r2, _) => fail!(
+                        if ok { "C09 multi legal vector rejected" } else { "C09 multi illegal vector accepted" },
+                        "{c:?}: vector {name} of length {len} (legal: {ok}; illegal positions {:?}): try_from(Vec) is_ok = {}, try_from(&[f64]) is_ok = {}",
+                        raw.iter().enumerate().filter(|(_, v)| !legal(**v)).map(|(i, _)| i).take(4).collect::<Vec<_>>(),
+                        r1.is_ok(),
+                        r2.is_ok()
+                    ),
+                }
+            }
+            if objs.len() == 2 {
+                let (x, y) = (&objs[0], &objs[1]);
+                let want = pareto(x.value(), y.value());
+                let got = x.partial_cmp(y);
+                match want {
+                    Some(Ordering::Less) | Some(Ordering::Greater) => cl |= 2,
+                    None => cl |= 4,
+                    _ => {}
+                }
+                let better = a.iter().zip(&b).filter(|(p, q)| p < q).count();
+                let worse = a.iter().zip(&b).filter(|(p, q)| p > q).count();
+                ensure_that!(got == want, "C09 multi comparison is not Pareto dominance", "{c:?}: length {len}, a is better in {better} and worse in {worse} positions: partial_cmp = {got:?}, Pareto dominance says {want:?}");
+                ensure_that!(y.partial_cmp(x) == got.map(Ordering::reverse), "C09 multi antisymmetry", "{c:?}");
+                ensure_that!((got == Some(Ordering::Equal)) == (x == y), "C09 multi Equal vs ==", "{c:?}");
+            }
+            Ok(())
+        })();
+        Outcome::new(cl & 0b111 != 0, cl, r)
+    }
+}
+
 pub fn run_all(ctx: &mut Ctx, replay: Option<&Path>) {
-    ctx.rule("single: case = triple of f64 inputs (+ a finite scalar): construction legality and bit-exact round trip, agreement of cmp/partial_cmp/==/</<=/> with the numeric order on all pairs (plus Default and INFINITY), antisymmetry/transitivity on all triples, sort/min/max vs sorting the raw values, closure of + - (objective, objective), * / (objective, finite scalar) and unary -; non-trivial = a triple involving +-0, inf or MAX. multi: case = triple of vectors (length 0-3 exhaustively and randomly; random long vectors of 4-8 and 30-70 components with near copies that differ in up to three positions): both constructors, Pareto dominance vs an independent reference on all pairs, reflexivity, Equal <=> ==, antisymmetry, transitivity of < and <=; non-trivial = has a trade-off pair of length >= 2, a length mismatch or a dominance; distinct by case");
+    ctx.rule("single: case = triple of f64 inputs (+ a finite scalar): construction legality and bit-exact round trip, agreement of cmp/partial_cmp/==/</<=/> with the numeric order on all pairs (plus Default and INFINITY), antisymmetry/transitivity on all triples, sort/min/max vs sorting the raw values, closure of + - (objective, objective), * / (objective, finite scalar) and unary -; non-trivial = a triple involving +-0, inf or MAX. multi-long-vectors: pairs of vectors of 4 095 - 131 072 components (compact cases: fill values plus up to three edited positions incl. the first and the last) against the same legality and dominance oracles. multi: case = triple of vectors (length 0-3 exhaustively and randomly; random long vectors of 4-8 and 30-70 components with near copies that differ in up to three positions): both constructors, Pareto dominance vs an independent reference on all pairs, reflexivity, Equal <=> ==, antisymmetry, transitivity of < and <=; non-trivial = has a trade-off pair of length >= 2, a length mismatch or a dominance; distinct by case");
     ctx.assume("scalars for * and / are finite f64 (NaN/inf scalars are outside the property)");
     let s = SingleCheck;
     let m = MultiCheck;
     if let Some(p) = replay {
-        let _ = ctx.replay_file(&s, p) || ctx.replay_file(&m, p);
+        let _ = ctx.replay_file(&s, p) || ctx.replay_file(&m, p) || ctx.replay_file(&HugeCheck, p);
         return;
     }
     ctx.regressions(&s);
@@ -408,6 +487,35 @@ pub fn run_all(ctx: &mut Ctx, replay: Option<&Path>) {
             let i = j * stride;
             MultiCase { a: vs2[i % nv].clone(), b: vs2[(i / nv) % nv].clone(), c: vs2[(i * 7 + 3) % nv].clone() }
         }),
+    );
+    let h = HugeCheck;
+    ctx.regressions(&h);
+    let lens = [4095u32, 4096, 4097, 5000, 8191, 8193, 65535, 65536, 65537, 70_000, 131_072];
+    let fills = [(0.0, 1.0), (1.0, 0.0), (0.0, 0.0)];
+    let edit_sets: Vec<Vec<(u16, bool, f64)>> = vec![
+        vec![],
+        vec![(65535, false, f64::NAN)],
+        vec![(65535, true, f64::NEG_INFINITY)],
+        vec![(65000, false, f64::NAN)],
+        vec![(0, true, f64::NAN)],
+        vec![(65535, false, 2.0)],
+        vec![(0, false, 2.0)],
+        vec![(30000, true, -1.0)],
+        vec![(65535, true, -1.0), (0, false, -1.0)],
+    ];
+    let mut huge = Vec::new();
+    for len in lens {
+        for (fa, fb) in fills {
+            for e in &edit_sets {
+                huge.push(HugeCase { len, fill_a: Fb::of(fa), fill_b: Fb::of(fb), edits: e.iter().map(|(p, w, v)| (*p, *w, Fb::of(*v))).collect() });
+            }
+        }
+    }
+    ctx.exhaustive(&h, "11 lengths around 4096, 8192, 65536 and 131072 x 3 fill patterns x 9 edit sets (NaN / -inf / better / worse values at the first, a middle and the last position)", huge.into_iter());
+    ctx.random(
+        &h,
+        (prop_oneof![3 => 4000u32..9000, 2 => 65_000u32..66_000, 1 => 1u32..140_000], prop_oneof![Just(0.0), Just(1.0)], prop_oneof![Just(0.0), Just(1.0)], proptest::collection::vec((prop_oneof![1 => Just(0u16), 2 => Just(65535u16), 3 => any::<u16>()], any::<bool>(), prop_oneof![2 => Just(f64::NAN), 1 => Just(f64::NEG_INFINITY), 3 => Just(2.0), 3 => Just(-1.0), 1 => Just(f64::INFINITY)].prop_map(Fb::of)), 0..4)).prop_map(|(len, fa, fb, edits)| HugeCase { len, fill_a: Fb::of(fa), fill_b: Fb::of(fb), edits }),
+        ctx.tier.pick(300, 3000),
     );
     let n = ctx.tier.pick(60_000, 300_000);
     ctx.random(&m, (vec_strategy(), vec_strategy(), vec_strategy()).prop_map(|(a, b, c)| MultiCase { a, b, c }), n);
